@@ -27,9 +27,11 @@ def rsample(rng, kind):
 
 def cases(ctx):
   rng = ctx.rng
-  for _ in ctx.loop(400, 40000):
+  for _ in ctx.loop(1200, 60000):
     size = rng.randint(1, 8)
     hop = rng.randint(1, size)
+    if size > 2 and rng.random() < 0.3:   # a hop that does not divide the size
+      hop = rng.choice([h for h in range(2, size) if size % h] or [hop])
     m = rng.choice([1, 1, 2, 3, 5])
     kind = rng.choice(["big", "frac", "mix"])
     blks = [[rsample(rng, kind) for _ in range(size)] for _ in range(m)]
